@@ -55,6 +55,9 @@ func (c16) Generate(r *sim.Rand, tier string) *sim.Scenario {
 	}
 	sc.Cfg["D"], sc.Cfg["O"] = float64(D), float64(O)
 	sc.Cfg["rngseed"] = float64(r.Intn(1 << 30))
+	if r.Bool(0.5) {
+		sc.Cfg["spread"] = 1
+	}
 	if r.Bool(0.2) {
 		sc.Cfg["init"] = 1
 	} else if r.Bool(0.25) {
@@ -94,6 +97,8 @@ func (c16) Generate(r *sim.Rand, tier string) *sim.Scenario {
 			if r.Bool(0.3) {
 				sc.Steps = append(sc.Steps, sim.Step{C: 1, Op: "weights", Out: -1})
 			}
+		case r.Bool(0.03):
+			sc.Steps = append(sc.Steps, sim.Step{C: 1, Op: "tie", N: r.Intn(2), Out: -1})
 		case r.Bool(0.04):
 			// the layer value is copied (FC has exported fields; copying it is
 			// ordinary Go) and the copy is used from here on
@@ -219,6 +224,7 @@ func (prop c16) Execute(sc *sim.Scenario) *sim.Outcome {
 	sim.Resume()
 	all := []*pobj{cur[0], cur[1]}
 	var fwds []*fwdRec
+	ins := make([]tensor.Tensor, 1)
 	swapBetween := false
 
 	// reRead: call Weights() again (only at the operator's explicit "weights"
@@ -361,6 +367,16 @@ func (prop c16) Execute(sc *sim.Scenario) *sim.Outcome {
 			if !checkPointers(where, false) {
 				return fin()
 			}
+		case "tie":
+			// the same tensor object in both slots (legal: both have shape [Outputs]);
+			// it then plays both roles of the formula and collects both gradients
+			src := st.N % 2
+			*ptr[1-src] = *ptr[src]
+			cur[1-src] = cur[src]
+			out.Faults["pointer-swap/tied"]++
+			if !checkPointers(where, false) {
+				return fin()
+			}
 		case "reset":
 			k := st.N % 2
 			for _, f := range fwds {
@@ -386,7 +402,19 @@ func (prop c16) Execute(sc *sim.Scenario) *sim.Outcome {
 			}
 			xv := cpF(st.F[:batch*D])
 			x := sim.Leaf([]int{batch, D}, xv, st.B)
-			y, err := fc.Forward(x)
+			var y tensor.Tensor
+			var err error
+			if sc.Cfg["spread"] == 1 {
+				// the caller keeps one input list and spreads it into every Forward
+				ins[0] = x
+				y, err = fc.Forward(ins...)
+				if ins[0] != x {
+					out.Fail("forward-wrote-caller-slice", "%s: the input list spread into Forward holds another tensor after the call", where)
+					return fin()
+				}
+			} else {
+				y, err = fc.Forward(x)
+			}
 			if err != nil || y == nil {
 				out.Fail("forward-error", "%s: Forward of a [%d,%d] input failed: %v", where, batch, D, err)
 				return fin()
